@@ -26,7 +26,7 @@ def prop_text(p):
 
 COMMON = """You are working on the Go library theine-go (a concurrent in-memory and hybrid cache: W-TinyLFU eviction, hierarchical timer wheel expiry, lossy striped read buffers, gob persistence, singleflight loading). Your own scratch git worktree of the repository is at {wt} - work ONLY there (do not touch /repo or /verif, do not read /verif). The sandbox is offline; every shell call needs:
   export GOFLAGS=-mod=mod GOPROXY=off GOSUMDB=off GOTOOLCHAIN=local
-and then e.g. `cd {wt} && go build ./... && go test -count=1 ./...` works (the suite takes 1-2 minutes; three tests - TestPersist_Basic, TestPersist_LoadingBasic, TestSecondaryCache_ErrorHandler - are timing-sensitive and may fail on a loaded machine with or without any change; re-run those alone before concluding anything). Files guarded by the build tag `verif` (verifhook_*.go, clock/verif_*.go) are inert instrumentation; leave them alone and do not build with that tag.
+and then e.g. `cd {wt} && go build ./... && go test -count=1 ./...` works (the suite takes 1-2 minutes; three tests - TestPersist_Basic, TestPersist_LoadingBasic, TestSecondaryCache_ErrorHandler - are timing-sensitive and may fail on a loaded machine with or without any change; re-run those alone before concluding anything). Files guarded by the build tag `verif` (verifhook_*.go, clock/verif_*.go) are inert instrumentation; leave them alone and do not build with that tag. Never use `git stash` (the stash is shared between all worktrees of the repository and other people are working in theirs): to get a clean tree save your change with `git diff > /some/file`, then `git checkout -- .`, and re-apply it with `git apply`.
 
 Here is one semantic property that users of the library rely on:
 
